@@ -29,7 +29,7 @@ ASSUMPTIONS = [
     "for floats - an accuracy detail outside the property)",
     "str start for sum and explicit None for optional parameters are outside the input domain",
 ]
-PROBES = ("tie_present", "stdlib_raised", "empty_input_with_default", "key_used", "container_start", "one_key_function_two_calls")
+PROBES = ("tie_present", "stdlib_raised", "empty_input_with_default", "key_used", "container_start", "one_key_function_two_calls", "first_use_in_a_fresh_process")
 
 
 def snapshot(spec, run):
@@ -203,3 +203,84 @@ def execute(st, ctx):
 
 def explore(st, ctx):
     return [execute(st, ctx)]
+
+
+# --------------------------------------------------------------------------- first use in a fresh process
+FRESH_SRC = r"""
+import sys, json
+sys.path.insert(0, %(verif)r)
+sys.dont_write_bytecode = True
+from aslsim.runner import setup_repo_path
+setup_repo_path()
+import asyncstdlib as a
+from aslsim.loop import drive_sync
+
+
+class Handle:
+    # a data item that happens to be awaitable (a job handle): nobody is to await it
+    def __init__(self, n):
+        self.n = n
+    def __await__(self):
+        raise AssertionError("a data item was awaited")
+        yield
+    def __lt__(self, other):
+        return self.n < other.n
+
+
+h1, h2 = Handle(1), Handle(2)
+CASES = {
+    "min": (lambda: a.min([h1, h2]), lambda r: r is h1, lambda: a.min([3, 1, 2]), 1),
+    "max": (lambda: a.max([h1, h2]), lambda r: r is h2, lambda: a.max([3, 1, 2]), 3),
+    "min_default": (lambda: a.min([h1], default=None), lambda r: r is h1, lambda: a.min([], default=7), 7),
+    "min_key": (lambda: a.min([h2, h1], key=lambda x: x.n), lambda r: r is h1, lambda: a.min([3, 1, 2], key=lambda x: -x), 3),
+    "max_key": (lambda: a.max([h2, h1], key=lambda x: x.n), lambda r: r is h2, lambda: a.max([3, 1, 2], key=lambda x: -x), 1),
+    "sorted": (lambda: a.sorted([h2, h1]), lambda r: r == [h1, h2], lambda: a.sorted([3, 1, 2]), [1, 2, 3]),
+    "nsmallest": (lambda: a.heapq.nsmallest([h2, h1], 1), lambda r: r == [h1], lambda: a.heapq.nsmallest([3, 1, 2], 2), [1, 2]),
+    "nlargest": (lambda: a.heapq.nlargest([h2, h1], 1), lambda r: r == [h2], lambda: a.heapq.nlargest([3, 1, 2], 2), [3, 2]),
+    "list": (lambda: a.list([h1, 5]), lambda r: r == [h1, 5], lambda: a.list(iter([3, 1])), [3, 1]),
+    "all": (lambda: a.all([h1, 1]), lambda r: r is True, lambda: a.all([1, 0]), False),
+    "any": (lambda: a.any([0, h1]), lambda r: r is True, lambda: a.any([0, 0]), False),
+    "sum": (lambda: a.sum([1, 2]), lambda r: r == 3, lambda: a.sum([1.5, 2], 1), 4.5),
+}
+first, ok_first, second, want = CASES[%(case)r]
+out = {"case": %(case)r}
+susp, value, err = drive_sync(first())
+out["first"] = ("raised %%r" %% (err,)) if err is not None else ("suspended" if susp else ("ok" if ok_first(value) else "wrong result %%r" %% (value,)))
+susp, value, err = drive_sync(second())
+out["second"] = ("raised %%r" %% (err,)) if err is not None else ("suspended" if susp else ("ok" if (value == want and type(value) is type(want)) else "wrong result %%r" %% (value,)))
+print("FRESH " + json.dumps(out))
+"""
+
+
+def extra_checks(verif_seed, tier):
+    """
+    Once per invocation: every aggregation's *first use in a fresh interpreter* sees an awaitable object among its items
+    (data: nobody is to await it) and is followed by an ordinary call - whatever the library decides about its helpers
+    on first use must not outlive that call.
+    """
+    import json
+    import os
+    import subprocess
+    import sys
+
+    from ..runner import VERIF_DIR
+
+    cases = ("min", "max", "min_default", "min_key", "max_key", "sorted", "nsmallest", "nlargest", "list", "all", "any", "sum")
+    bad = []
+    for case in cases:
+        src = FRESH_SRC % {"verif": VERIF_DIR, "case": case}
+        proc = subprocess.run([sys.executable, "-B", "-c", src], capture_output=True, text=True, env=dict(os.environ),
+                              cwd=VERIF_DIR, timeout=300)
+        info = None
+        for line in proc.stdout.splitlines():
+            if line.startswith("FRESH "):
+                info = json.loads(line[6:])
+        if info is None:
+            return {"error": "fresh-process probe %s failed: %s" % (case, proc.stderr[-1200:])}
+        if info["first"] != "ok" or info["second"] != "ok":
+            bad.append(info)
+    res = {"probes": {"first_use_in_a_fresh_process": 1}, "evaluations": len(cases), "info": {"cases": len(cases), "bad": bad}}
+    if bad:
+        res["violation"] = {"clause": "C02.first_use_in_a_fresh_process_differs", "sig": [bad[0]["case"]],
+                            "detail": {"cases": bad}}
+    return res
